@@ -294,5 +294,6 @@ pub fn subs() -> Vec<Box<dyn DynSub>> {
         sub(Sub { name: "c11.spellings", source: Source::Enum(spelling_enum, |_| true), oracle: spelling_oracle, known: no_known, hang_is_violation: false }),
         sub(Sub { name: "c11.offsets", source: Source::Gen(offset_strategy, 500_000, 2_000_000), oracle: offset_oracle, known: no_known, hang_is_violation: false }),
         crate::props::fuzzsub::c11_fuzz(),
+        crate::props::fuzzsub::fc11(),
     ]
 }
